@@ -115,9 +115,9 @@ def Shuffle(F,
 
 
     # verification hook (off unless CNFGEN_VERIF=1): remember the witness used
+    # (the pairs are noted as the loop below consumes them: nothing is materialised)
     _verif = os.environ.get('CNFGEN_VERIF') == '1'
-    if _verif:
-        clauses_mapping = list(clauses_mapping)
+    _verif_pairs = []
 
     # precompute literal mapping
     substitution = [None] * (2 * N + 1)
@@ -129,12 +129,14 @@ def Shuffle(F,
     for (old, new) in clauses_mapping:
         assert new == out.number_of_clauses()
         out.add_clause(substitution[lit] for lit in F[old])
+        if _verif:
+            _verif_pairs.append((int(old), int(new)))
 
     if _verif:
         # flips, variable permutation and (old position, new position) pairs
         out._verif_witness = ([int(x) for x in polarity_flips],
                               [int(x) for x in variables_permutation],
-                              [(int(o), int(n)) for (o, n) in clauses_mapping])
+                              _verif_pairs)
         if os.environ.get('CNFGEN_VERIF_TRACE'):
             import json
             with open(os.environ['CNFGEN_VERIF_TRACE'], 'a') as _f:
